@@ -1,4 +1,5 @@
 import Sml.Props.C06
+import Sml.Lemmas.C06Push
 #print axioms Sml.C06.no_panic_complete
 #print axioms Sml.C06.no_panic_streaming
 #print axioms Sml.C06.entries_bound
@@ -10,3 +11,18 @@ import Sml.Props.C06
 #print axioms Sml.C06.each_request_le
 #print axioms Sml.C06.pushes_bound
 #print axioms Sml.C06.request_def
+#print axioms Sml.C06.parseListEntryWith_consumes
+#print axioms Sml.C06.parseListEntry_consumes
+#print axioms Sml.C06.entry_consumes
+#print axioms Sml.C06.entry_consumes_one
+#print axioms Sml.C06.listLoop_res_gen
+#print axioms Sml.C06.listLoop_res
+#print axioms Sml.C06.parseListWithLit_res
+#print axioms Sml.C06.listLoop_ok_v
+#print axioms Sml.C06.listLoop_spec
+#print axioms Sml.C06.listLoop_error_char
+#print axioms Sml.C06.listLoop_pushes
+#print axioms Sml.C06.pushes_le_request
+#print axioms Sml.C06.pushes_le_eighth
+#print axioms Sml.C06.listLoop_no_regrow
+#print axioms Sml.C06.no_regrow
